@@ -114,7 +114,7 @@ fn gen_stmt(c: &mut Choices<'_>, labels: &mut BTreeSet<&'static str>) -> String 
         }
         9 => {
             labels.insert("quote-char-literal");
-            format!("let q = '\"'; let after = {};", c.pick(LONG_IDENTS))
+            format!("let q = {}; let after = {};", *c.pick(&["'\"'", "'\\\"'", "b'\"'", "'\\''"]), c.pick(LONG_IDENTS))
         }
         _ => {
             labels.insert("raw-string");
